@@ -46,6 +46,8 @@ pub struct C17 {
     /// live one (1 when nothing is live) and requests are not offered once that would exceed n, so
     /// identifiers increase along the retained list (what a plain counter produces between wraps).
     id_bound: u16,
+    /// payloads are supplied by closures that scribble over the whole buffer they are handed
+    scribble: bool,
 }
 
 fn poll_until_blocked(bench: &Bench, conn: &mut Connection<'_, '_, VirtualIo>, id: usize) -> Option<Res> {
@@ -183,7 +185,7 @@ impl C17 {
             Built::Ran(b) => b,
             Built::Config(e) => panic!("machinery: {}", e),
         };
-        C17 { label: label.to_string(), tx, events, max_live, baseline, id_bound }
+        C17 { label: label.to_string(), tx, events, max_live, baseline, id_bound, scribble: false }
     }
 
     fn check_replay(written: &[u8], retained: &[Live], release: &[(u16, u8)], when: &str, viol: &mut Vec<(String, String)>) {
@@ -327,6 +329,21 @@ impl Model for C17 {
                                 let count0 = conn.session().verif_runtime().retained;
                                 let quota0 = conn.session().verif_runtime().send_quota;
                                 let r: Result<(), Res> = match kind {
+                                    1 | 2 if self.scribble => {
+                                        let src = payload.clone();
+                                        let f = move |buf: &mut [u8]| -> Result<usize, ()> {
+                                            if buf.len() < src.len() {
+                                                return Err(());
+                                            }
+                                            buf.fill(0xDD);
+                                            buf[..src.len()].copy_from_slice(&src);
+                                            Ok(src.len())
+                                        };
+                                        bench
+                                            .run(conn.publish(Publication::new("t", f).qos(qos_of(kind))), id)
+                                            .map(|r| r.map(|_| ()).map_err(|e| Res::from_pub(&e)))
+                                            .unwrap_or(Err(Res::Cancelled))
+                                    }
                                     1 | 2 => bench
                                         .run(conn.publish(Publication::bytes("t", &payload).qos(qos_of(kind))), id)
                                         .map(|r| r.map(|_| ()).map_err(|e| Res::from_pub(&e)))
@@ -362,8 +379,20 @@ impl Model for C17 {
                             }
                             Ev::Pub0(size) => {
                                 let before = bench.written(id).len();
-                                let r = bench.run(conn.publish(Publication::bytes("t", &big[..size]).qos(QoS::AtMostOnce)), id);
-                                let ok = matches!(r, Some(Ok(_)));
+                                let ok = if self.scribble {
+                                    let src = big[..size].to_vec();
+                                    let f = move |buf: &mut [u8]| -> Result<usize, ()> {
+                                        if buf.len() < src.len() {
+                                            return Err(());
+                                        }
+                                        buf.fill(0xDD);
+                                        buf[..src.len()].copy_from_slice(&src);
+                                        Ok(src.len())
+                                    };
+                                    matches!(bench.run(conn.publish(Publication::new("t", f).qos(QoS::AtMostOnce)), id), Some(Ok(_)))
+                                } else {
+                                    matches!(bench.run(conn.publish(Publication::bytes("t", &big[..size]).qos(QoS::AtMostOnce)), id), Some(Ok(_)))
+                                };
                                 let w = bench.written(id)[before..].len();
                                 log(&mut trace_in, &|| format!("Pub0({}) -> ok={} wrote {} bytes", size, ok, w));
                                 class = hash_of(&(class, ok));
@@ -499,6 +528,11 @@ pub fn models(tier: Tier) -> Vec<C17> {
     let mut v = vec![
         // tiny arena, mixed kinds and sizes, acknowledgements in any order, QoS 0 traffic in between
         C17::new("C17-arena-48-mixed", 48, &[0, 7], &[1, 2, 3, 4], true, if q { 3 } else { 4 }, false, 0),
+        {
+            let mut m = C17::new("C17-arena-48-scribbling-payload-closures", 48, &[0, 7], &[1, 2, 3], true, 3, false, 0);
+            m.scribble = true;
+            m
+        },
         // all eight slots, one kind: slot leaks and ordering with many entries
         C17::new("C17-arena-96-eight-slots", 96, &[0], &[1], false, 8, false, if q { 10 } else { 12 }),
         // a payload that fills the arena on its own
